@@ -225,6 +225,7 @@ to the field's own `mode`); `false` is the code before (returns False at once). 
 structure Legacy where
   modeStringReturns : Bool := false      -- field.py is_no_input / is_no_output before the fix
   predSkipsMode : Bool := false          -- always_no_input before the fix: a callable no_input returned False at once
+  excludedProvided : Bool := false       -- before utype 107a5ff: a value dropped by 'exclude' fell back to the default as a given field
   deriving Repr, DecidableEq
 
 def Legacy.none : Legacy := {}
@@ -314,31 +315,45 @@ structure St (V : Type) where
   deriving Repr
 
 /-- `ParserField.parse_value` (field.py:1063-1089): value to store (if any) and the errors handled. -/
-def parseValue {V : Type} (L : Legacy) (W : World V) (o : Opts V) (f : PField V) (v : V) : Option V × List Err :=
+def parseValue {V : Type} (L : Legacy) (W : World V) (o : Opts V) (f : PField V) (v : V) :
+    Option V × List Err × Bool :=
   match W.fp f.attname v with
-  | some r => (some r, [])
+  | some r => (some r, [], false)
   | none =>
     match getOnError o f with
-    | .exclude => (getDefault o f false, if isRequired L o f then [.parse f.name] else [])
-    | .preserve => (some v, [])
-    | .throw => (none, [.parse f.name])
+    | .exclude =>
+      if isRequired L o f then (getDefault o f false, [.parse f.name], false)
+      else if L.excludedProvided then (getDefault o f false, [], false)
+      else (none, [], true)            -- `return self.EXCLUDED`: the caller treats the field as not given
+    | .preserve => (some v, [], false)
+    | .throw => (none, [.parse f.name], false)
 
 /-- The statements both strategies run for a field that has an input value `v` and a (possibly absent)
-conflicting duplicate: no_input → default; else report the conflict, parse, store, collect dependencies
-(base.py:463-487 and 595-615). -/
+conflicting duplicate: no_input → default; else report the conflict, parse, store, collect dependencies.
+The flag says that the value was dropped by the 'exclude' policy (`parsed is field.EXCLUDED`), which the two
+strategies then handle in their own way. -/
 def provide {V : Type} (L : Legacy) (W : World V) (o : Opts V) (f : PField V) (v : V) (conflict : Bool)
-    (st : St V) : St V :=
+    (st : St V) : St V × Bool :=
   if isNoInput L W o f v then
     match getDefault o f false with
-    | some d => { st with result := dset f.name d st.result }
-    | none => st
+    | some d => ({ st with result := dset f.name d st.result }, false)
+    | none => (st, false)
   else
     let st := if conflict then { st with errs := st.errs ++ [.aliasConflict f.name] } else st
-    let (p, es) := parseValue L W o f v
-    let st := { st with errs := st.errs ++ es }
-    match p with
-    | none => st
-    | some r => { st with result := dset f.name r st.result, deps := st.deps ++ f.deps }
+    let r := parseValue L W o f v
+    let st := { st with errs := st.errs ++ r.2.1 }
+    if r.2.2 then (st, true) else
+    match r.1 with
+    | none => (st, false)
+    | some x => ({ st with result := dset f.name x st.result, deps := st.deps ++ f.deps }, false)
+
+/-- field_first_parse on `parsed is field.EXCLUDED`: as a field that was not given — it joins the unprovided
+fields, its default applies, it demands no dependencies -/
+def ffExcluded {V : Type} (o : Opts V) (f : PField V) (st : St V) : St V :=
+  let st := { st with unprov := st.unprov ++ [f.name] }
+  match getDefault o f false with
+  | some d => { st with result := dset f.name d st.result }
+  | none => st
 
 /-- The statements for a field without input (base.py:489-502 and 579-590). -/
 def absent {V : Type} (L : Legacy) (o : Opts V) (f : PField V) (st : St V) : St V :=
@@ -420,27 +435,38 @@ def dfScanStep {V : Type} [DecidableEq V] (W : World V) (P : Parser V)
       if rank ≥ used.rank then s else { s with inputs := dset f.name ⟨some f, kv.2, rank⟩ s.inputs }
     | none => { s with inputs := dset f.name ⟨some f, kv.2, rank⟩ s.inputs }
 
+/-- state of the second loop -/
+structure DfRun (V : Type) where
+  st : St V := {}
+  addition : List (Key × V) := []
+  excluded : List Key := []            -- names of the fields whose value the 'exclude' policy dropped
+
 /-- one iteration of the second loop: an additional key goes through `parse_addition`, a field through the
-shared statements -/
+shared statements; `parsed is field.EXCLUDED` → `excluded.add(name)` -/
 def dfItemStep {V : Type} (L : Legacy) (W : World V) (P : Parser V) (o : Opts V) (conflicts : List Key)
-    (acc : St V × List (Key × V)) (ni : Key × Input V) : St V × List (Key × V) :=
+    (acc : DfRun V) (ni : Key × Input V) : DfRun V :=
   match ni.2.field with
   | none =>
     let r := parseAddition W P o ni.1 ni.2.value
-    ({ acc.1 with errs := acc.1.errs ++ r.2 }, match r.1 with | some x => dset ni.1 x acc.2 | none => acc.2)
-  | some f => (provide L W o f ni.2.value (conflicts.contains ni.1 && !o.ignoreAliasConflicts) acc.1, acc.2)
+    { acc with st := { acc.st with errs := acc.st.errs ++ r.2 }
+               addition := match r.1 with | some x => dset ni.1 x acc.addition | none => acc.addition }
+  | some f =>
+    let r := provide L W o f ni.2.value (conflicts.contains ni.1 && !o.ignoreAliasConflicts) acc.st
+    { acc with st := r.1, excluded := if r.2 then acc.excluded ++ [ni.1] else acc.excluded }
 
 /-- third loop (base.py:489-502) -/
-def dfAbsentAll {V : Type} (L : Legacy) (P : Parser V) (o : Opts V) (inputs : List (Key × Input V)) (st : St V) : St V :=
-  P.fields.foldl (fun st kf => if dhas kf.2.name inputs then st else absent L o kf.2 st) st
+def dfAbsentAll {V : Type} (L : Legacy) (P : Parser V) (o : Opts V) (inputs : List (Key × Input V))
+    (excluded : List Key) (st : St V) : St V :=
+  P.fields.foldl (fun st kf =>
+    if dhas kf.2.name inputs && !excluded.contains kf.2.name then st else absent L o kf.2 st) st
 
 def dataFirst {V : Type} [DecidableEq V] (L : Legacy) (W : World V) (P : Parser V) (o : Opts V)
     (data : List (Key × V)) : St V :=
   let s := data.foldl (dfScanStep W P) {}
-  let r := s.inputs.foldl (dfItemStep L W P o s.conflicts) ({}, [])
-  let st := dfAbsentAll L P o s.inputs r.1
+  let r := s.inputs.foldl (dfItemStep L W P o s.conflicts) {}
+  let st := dfAbsentAll L P o s.inputs r.excluded r.st
   let st := depsCheck P st
-  { st with result := dupdate st.result r.2 }
+  { st with result := dupdate st.result r.addition }
 
 /-! ### field-first strategy (base.py:525-640, after the fix) -/
 
@@ -491,7 +517,9 @@ def ffFieldStep {V : Type} [DecidableEq V] (L : Legacy) (W : World V) (o : Opts 
   let f := kf.2
   match ffPick o.ignoreAliasConflicts m f.allAliases none with
   | (none, _) => { s with st := absent L o f s.st }
-  | (some v, c) => { st := provide L W o f v c s.st, used := s.used ++ f.allAliases }
+  | (some v, c) =>
+    let r := provide L W o f v c s.st
+    { st := if r.2 then ffExcluded o f r.1 else r.1, used := s.used ++ f.allAliases }
 
 /-- the addition loop: over the input in its original spelling (`origin`), skipping the keys whose lookup key
 belongs to a provided field -/
@@ -602,7 +630,7 @@ def Parser.wf {V : Type} (W : World V) (P : Parser V) : Bool :=
 wins under ignore_alias_conflicts, no_input inputs forgotten, defaults skipped under ignore_required. -/
 def dataFirstLegacy {V : Type} [DecidableEq V] (W : World V) (P : Parser V) (o : Opts V)
     (data : List (Key × V)) : St V :=
-  let L : Legacy := {}
+  let L : Legacy := { excludedProvided := true }
   let (st, add) := data.foldl (fun (acc : St V × List (Key × V)) kv =>
     let (st, add) := acc
     match getField W P kv.1 with
@@ -618,9 +646,9 @@ def dataFirstLegacy {V : Type} [DecidableEq V] (W : World V) (P : Parser V) (o :
         | some stored =>
           ((if stored ≠ kv.2 then { st with errs := st.errs ++ [.aliasConflict f.name] } else st), add)
         | none =>
-          let (p, es) := parseValue L W o f kv.2
-          let st := { st with errs := st.errs ++ es }
-          ((match p with
+          let r := parseValue L W o f kv.2
+          let st := { st with errs := st.errs ++ r.2.1 }
+          ((match r.1 with
             | none => st
             | some r => { st with result := dset f.name r st.result, deps := st.deps ++ f.deps }), add))
     (({} : St V), [])
@@ -633,7 +661,7 @@ def dataFirstLegacy {V : Type} [DecidableEq V] (W : World V) (P : Parser V) (o :
 reported before the no_input test. -/
 def fieldFirstLegacy {V : Type} [DecidableEq V] (W : World V) (P : Parser V) (o : Opts V)
     (data : List (Key × V)) : St V :=
-  let L : Legacy := {}
+  let L : Legacy := { excludedProvided := true }
   let data' := if P.ciNames.isEmpty then data else
     data.foldl (fun m kv => dset (lookupKey W P kv.1) kv.2 m) []
   let m : Merged V := { data := data' }
@@ -643,7 +671,7 @@ def fieldFirstLegacy {V : Type} [DecidableEq V] (W : World V) (P : Parser V) (o 
     | (none, _) => { s with st := absent L o f s.st }
     | (some v, c) =>
       let st := if c then { s.st with errs := s.st.errs ++ [.aliasConflict f.name] } else s.st
-      { st := provide L W o f v false st, used := s.used ++ f.allAliases }) {}
+      { st := (provide L W o f v false st).1, used := s.used ++ f.allAliases }) {}
   let st := depsCheck P s.st
   ffAdditions W P o s.used data st
 
